@@ -106,7 +106,7 @@ def steer_of(c):
 def steered(c):
     st = steer_of(c)
     return bool(st.get("ch1_groups") is not None or st.get("ch1_alpn") is not None or st.get("ch1_strip_ems")
-                or st.get("ch1_strip_sni") or st.get("ch1_strip_vers") or st.get("sh_alpn"))
+                or st.get("ch1_strip_sni") or st.get("ch1_strip_vers") or st.get("sh_alpn") or st.get("sh_suite"))
 
 
 def steer_modelled(c):
@@ -122,8 +122,8 @@ def steer_modelled(c):
 def steer_term(st):
     def o(l):
         return "None" if l is None else "(Some %s)" % cNlist(l)
-    return "(mkSteer %s %s %s %s %d)" % (o(st.get("ch1_groups")), o(st.get("ch1_alpn")), cbool(st.get("ch1_strip_ems", False)),
-                                       cbool(st.get("ch1_strip_sni", False)), st.get("sh_alpn", 0))
+    return "(mkSteer %s %s %s %s %d %d)" % (o(st.get("ch1_groups")), o(st.get("ch1_alpn")), cbool(st.get("ch1_strip_ems", False)),
+                                          cbool(st.get("ch1_strip_sni", False)), st.get("sh_alpn", 0), st.get("sh_suite", 0))
 
 
 def steer_case_term(c):
@@ -193,6 +193,7 @@ PSK_SUITES = {0x00a8, 0x00ae, 0xc0a4, 0xc0a8, 0xc0a9, 0xccab, 0xc037}
 DEF_CURVES = [4588, 29, 23, 24]
 DEF_SIGS = [0x0403, 0x0503, 0x0603, 0x0807, 0x0804, 0x0805, 0x0806, 0x0401, 0x0501, 0x0601]
 MLKEM = 4588
+CUSTOM_SUITE = 0xFFFE     # the user-supplied suite of the harness (ECDHE-ECDSA, AES-128-GCM, SHA-256)
 
 
 def suite_version(s):
@@ -307,8 +308,10 @@ def monitor_in_policy(c):
         if side["srtp"] and (side["srtp"] not in (cc["srtp"] or []) or side["srtp"] not in (sc["srtp"] or [])):
             out.append(("srtp-outside-policy", "SRTP profile %d, lists %s / %s" % (side["srtp"], cc["srtp"], sc["srtp"])))
         own = alpn_names(cc if side is cl else sc)
-        rogue = bool(steer_of(c).get("sh_alpn"))   # a rogue server's answer: each side is held to its OWN list only
-        if side["alpn"] and (side["alpn"] not in own or (not rogue and (
+        # a ServerHello hook (application hook or rogue server) overrides the server's configured list: the client is
+        # held to its OWN list, the server to what its final ServerHello says (monitor_hook)
+        rogue = bool(steer_of(c).get("sh_alpn"))
+        if side["alpn"] and ((side["alpn"] not in own and not (rogue and side is sv)) or (not rogue and (
                 side["alpn"] not in alpn_names(cc) or side["alpn"] not in alpn_names(sc)))):
             out.append(("alpn-outside-policy", "%s reports ALPN %s, lists %s / %s" % (
                 "client" if side is cl else "server", side["alpn"], alpn_names(cc), alpn_names(sc))))
@@ -405,10 +408,14 @@ def monitor_agreement(c):
             out.append((name, "%s: client %r, server %r" % (name, a, b)))
     ne("version", cl["version"], sv["version"])
     ne("cipher-suite", cl["suite"], sv["suite"])
-    if not cl["exp"] or cl["exp_err"] or sv["exp_err"] or any(not e for e in cl["exp"]):
+    if custom_suite(c) and (cl["exp_err"] or sv["exp_err"]):
+        out.append(("exporter-unavailable-on-custom-cipher-suite",
+                    "the handshake completed on the user-supplied cipher suite %#06x and application data flows, but "
+                    "ExportKeyingMaterial fails on both sides: client %r, server %r" % (cl["suite"], cl["exp_err"], sv["exp_err"])))
+    elif not cl["exp"] or cl["exp_err"] or sv["exp_err"] or any(not e for e in cl["exp"]):
         out.append(("exporter-unavailable", "exporter: client %r %r, server %r %r" % (cl["exp"], cl["exp_err"], sv["exp"], sv["exp_err"])))
     ne("exporter", cl["exp"], sv["exp"])
-    if cl["exp"] and len(set(cl["exp"])) != len(cl["exp"]):
+    if cl["exp"] and all(cl["exp"]) and len(set(cl["exp"])) != len(cl["exp"]):
         out.append(("exporter-label-independent", "exporter output does not depend on the label: %r" % cl["exp"]))
     ne("connection-id client-local/server-remote", cl["lcid"], sv["rcid"])
     ne("connection-id server-local/client-remote", sv["lcid"], cl["rcid"])
@@ -422,7 +429,7 @@ def monitor_agreement(c):
             out.append(("srtp-mki", "client reports peer MKI %r, offered %r" % (cl["rmki"], c["ch1"]["mki"])))
     # peer certificate chains: exactly what the peer presented
     resumed = resumed_obs(c)
-    cert_suite = cl["suite"] in ECDSA_SUITES or cl["suite"] in RSA_SUITES or cl["suite"] in SUITES13
+    cert_suite = cl["suite"] in ECDSA_SUITES or cl["suite"] in RSA_SUITES or cl["suite"] in SUITES13 or cl["suite"] == CUSTOM_SUITE
     want_s = (sv["sent_chain"], sv["sent_n"]) if (cert_suite and not resumed) else ("", 0)
     ne("server chain as seen by the client", (cl["certhash"], cl["ncerts"]), want_s)
     requested = cert_suite and not resumed and c["s"]["client_auth"] > 0
@@ -496,3 +503,25 @@ def monitor_first_hello(steered_case, untouched_case):
 def json_dumps(x):
     import json
     return json.dumps(x, sort_keys=True)
+
+
+def monitor_hook(c):
+    """ServerHello message hook: both sides report what the FINAL ServerHello says (C01 agreement on ALPN and suite)"""
+    st = steer_of(c)
+    if not (st.get("sh_alpn") or st.get("sh_suite")) or not both_ok(c):
+        return []
+    cl, sv = c["client"], c["server"]
+    bad = []
+    if cl["alpn"] != sv["alpn"]:
+        bad.append("ALPN client %r / server %r" % (cl["alpn"], sv["alpn"]))
+    if cl["suite"] != sv["suite"]:
+        bad.append("cipher suite client %#06x / server %#06x" % (cl["suite"], sv["suite"]))
+    if not bad:
+        return []
+    return [("server-commits-pre-hook-server-hello",
+             "ServerHello message hook %s: both sides report success with different views: %s" % (
+                 json_dumps({k: v for k, v in st.items() if k in ("sh_alpn", "sh_suite") and v}), "; ".join(bad)))]
+
+
+def custom_suite(c):
+    return bool(c["c"].get("custom") or c["s"].get("custom"))
